@@ -78,6 +78,7 @@ type account struct {
 	codeHash   []byte
 	isContract bool
 	storage    map[common.Hash][]byte
+	raw        map[string][]byte // storage entries whose key preimage is not a 32-byte slot number (preimage -> value)
 	storTrie   *trie.Trie
 	storRoot   common.Hash
 }
@@ -88,6 +89,12 @@ func (a *account) clone() *account {
 		b.storage = make(map[common.Hash][]byte, len(a.storage))
 		for k, v := range a.storage {
 			b.storage[k] = v
+		}
+	}
+	if a.raw != nil {
+		b.raw = make(map[string][]byte, len(a.raw))
+		for k, v := range a.raw {
+			b.raw[k] = v
 		}
 	}
 	return b
@@ -106,6 +113,13 @@ func (a *account) build() {
 			panic(err)
 		}
 		t.Update(crypto.Keccak256(slot[:]), enc)
+	}
+	for pre, v := range a.raw {
+		enc, err := rlp.EncodeToBytes(v)
+		if err != nil {
+			panic(err)
+		}
+		t.Update(crypto.Keccak256([]byte(pre)), enc)
 	}
 	a.storTrie = t
 	a.storRoot = t.Hash()
@@ -201,6 +215,7 @@ type world struct {
 	states       [numStates]*evmState
 	truths       [numStates][]ref // facts that hold in A's storage per state (canonical, non-zero values)
 	junk         []common.Hash    // junk slots of A in stOld
+	overlong     []byte           // key preimage (longer than 32 bytes, ending in the absent packet's slot) of an entry of A
 	tiny         int              // 0 normal; 1: A holds only P0,P2,P3; 2: A holds only commit(P0)
 	foreign      *evmState        // unrelated state: source of foreign nodes
 	nAccounts    int
@@ -393,6 +408,11 @@ func newWorld(rng *rand.Rand, id string) *world {
 		A.storage[s] = v
 		w.junk = append(w.junk, s)
 	}
+	// an entry whose key preimage is "<some bytes> || slot of the never-committed packet" and which holds that packet's
+	// commitment: a verifier that checks the LAST 32 bytes of a longer key field but looks the whole field up in the trie
+	// would take a proof of this entry for a proof of the slot
+	w.overlong = append(randBytes(rng, 1+rng.Intn(8)), slotOf(false, w.absent.src, w.absent.dst, w.absent.seq).Bytes()...)
+	A.raw = map[string][]byte{string(w.overlong): trimZeros(w.absent.commit)}
 	base.accounts[w.A] = A
 	if w.hasB {
 		rng.Read(code)
